@@ -456,6 +456,33 @@ func run(c *mon.Ctx) {
 		})
 		c.Class("concurrent-codecs")
 	})
+	c.Stream("concurrent-readers-of-one-ebp", c.N(8, 200), func(i int, r *gen.Rand) {
+		c.ConcurrentReaders("decoded EBP", c.N(300, 300), r, func(q *gen.Rand) func() string {
+			e := genEBP(q, q.Bool(), q.Byte())
+			in := e.Bytes()
+			if len(in) > 257 {
+				return nil
+			}
+			x, err := ebp.ReadEncoderBoundaryPoint(append([]byte{}, in...))
+			if err != nil || x == nil {
+				return func() string { return fmt.Sprintf("a well-formed EBP was rejected: %v (%s)", err, shape(&e)) }
+			}
+			want := ref.NTPInstant(e.Sec, e.Frac)
+			return func() string {
+				if x.FragmentFlag() != (e.Flags&0x80 != 0) || x.SegmentFlag() != (e.Flags&0x40 != 0) || x.SapFlag() != (e.Flags&0x20 != 0) || x.GroupingFlag() != (e.Flags&0x10 != 0) || x.TimeFlag() != (e.Flags&0x08 != 0) || x.ExtensionFlag() != (e.Flags&0x01 != 0) {
+					return "flags read differ from the encoded ones (" + shape(&e) + ")"
+				}
+				if e.Flags&0x08 != 0 && !x.EBPTime().Equal(want) {
+					return fmt.Sprintf("EBPTime()=%v, encoded %v", x.EBPTime().UTC(), want.UTC())
+				}
+				if e.Flags&0x20 != 0 && x.Sap() != e.Sap {
+					return fmt.Sprintf("Sap()=%#x, encoded %#x", x.Sap(), e.Sap)
+				}
+				return ""
+			}
+		})
+		c.Class("concurrent-readers-of-one-ebp")
+	})
 	c.Stream("by-flags", 512, func(i int, r *gen.Rand) {
 		cable, flags := i >= 256, byte(i)
 		for k := 0; k < per; k++ {
